@@ -2,24 +2,25 @@
 """Developer tool: run hlint property checks against seeded changes.
 usage: seedcheck.py [name ...]   (default: all under /verif/seeded)  [--props C01,C02]"""
 import subprocess, os, shutil, tempfile, sys, json, glob
+ROOT=os.environ.get('VERIF_ROOT') or os.path.dirname(os.path.dirname(os.path.abspath(__file__)))
 args=[a for a in sys.argv[1:] if not a.startswith('-')]
 props=None
 for a in sys.argv[1:]:
     if a.startswith('--props='): props=a.split('=')[1].split(',')
-names=args or sorted(os.path.basename(d) for d in glob.glob('/verif/seeded/*'))
+names=args or sorted(os.path.basename(d) for d in glob.glob(ROOT+'/seeded/*'))
 ALL=['C%02d'%i for i in range(1,18)]
 def one(n):
     import io
     out=io.StringIO()
     d=tempfile.mkdtemp(prefix='/tmp/seedchk.')
     subprocess.run(['rsync','-a','--exclude','.git','/repo/',d+'/'],check=True)
-    p=subprocess.run('patch -p1 -s --no-backup-if-mismatch -i /verif/seeded/%s/patch.diff'%n,shell=True,cwd=d,capture_output=True,text=True)
+    p=subprocess.run('patch -p1 -s --no-backup-if-mismatch -i '+ROOT+'/seeded/%s/patch.diff'%n,shell=True,cwd=d,capture_output=True,text=True)
     if p.returncode!=0:
         shutil.rmtree(d); return (n+' PATCH DOES NOT APPLY\n',0,0)
-    meta=json.load(open('/verif/seeded/%s/meta.json'%n))
+    meta=json.load(open(ROOT+'/seeded/%s/meta.json'%n))
     hits={}
-    vd=tempfile.mkdtemp(prefix='/tmp/seedverif.'); os.mkdir(vd+'/evidence'); shutil.copy('/verif/known_findings.json',vd)
-    o=subprocess.run(['/verif/bin/hlint','-property',props[0] if props and len(props)==1 else 'all','-repo',d,'-verif',vd],capture_output=True,text=True).stdout
+    vd=tempfile.mkdtemp(prefix='/tmp/seedverif.'); os.mkdir(vd+'/evidence'); shutil.copy(ROOT+'/known_findings.json',vd)
+    o=subprocess.run([ROOT+'/bin/hlint','-property',props[0] if props and len(props)==1 else 'all','-repo',d,'-verif',vd],capture_output=True,text=True).stdout
     cur=None
     for l in o.splitlines():
         if l.startswith('property C'): cur=l.split()[1]
@@ -35,7 +36,7 @@ def one(n):
 
 if __name__=='__main__':
     from multiprocessing import Pool
-    names=[n for n in names if os.path.isdir('/verif/seeded/'+n)]
+    names=[n for n in names if os.path.isdir(ROOT+'/seeded/'+n)]
     tot=det=0
     with Pool(8) as pool:
         for txt,t,dd in pool.imap(one,names):
